@@ -33,8 +33,10 @@ func genWCase(t *rapid.T, maxLen int, clock bool) WCase {
 		case "putmany":
 			op.Two = rapid.Bool().Draw(t, "two")
 			op.Exp = clock && rapid.IntRange(0, 3).Draw(t, "exp") == 0
+			op.Past = clock && rapid.IntRange(0, 7).Draw(t, "past") == 0
 		case "put", "casok", "create":
 			op.Exp = clock && rapid.IntRange(0, 3).Draw(t, "exp") == 0
+			op.Past = clock && op.K != "create" && rapid.IntRange(0, 7).Draw(t, "past") == 0
 		case "advance":
 			op.Min = rapid.SampledFrom([]int{25, 47, 90}).Draw(t, "min")
 		}
@@ -53,7 +55,7 @@ func recordC07(c WCase, info WInfo, env string) {
 func RunC07Inmem(t *testing.T, c WCase) (info WInfo, v *vstat.Violation) {
 	synctest.Test(t, func(*testing.T) {
 		st := inmem.New()
-		env := &WEnv{Name: "inmem", St: st, Now: time.Now, Advance: time.Sleep, Gates: true,
+		env := &WEnv{Name: "inmem", St: st, Now: time.Now, Advance: time.Sleep, Gates: true, PastWrites: true,
 			Settle: func([]chan struct{}) bool { synctest.Wait(); return true },
 			Table:  func() (int, int, bool) { return waiterTable(st) }}
 		info, v = RunWait(c, env)
